@@ -14,11 +14,15 @@ use crate::wal::{WalError, WalIoOperation, WalReplayIoStep};
 pub(crate) struct SegmentWriter {
     writer: BufWriter<File>,
     segment_id: u64,
+    // length of the segment file up to and including the last successfully appended entry
+    len: u64,
+    // set when a failed append could not be rolled back; the segment tail is then unknown
+    poisoned: bool,
 }
 
 impl SegmentWriter {
-    pub(crate) fn new(segment_id: u64, file: File) -> Self {
-        Self { writer: BufWriter::new(file), segment_id }
+    pub(crate) fn new(segment_id: u64, file: File, len: u64) -> Self {
+        Self { writer: BufWriter::new(file), segment_id, len, poisoned: false }
     }
 
     pub(crate) fn segment_id(&self) -> u64 {
@@ -44,22 +48,29 @@ impl SegmentWriter {
         record.extend_from_slice(&op_data_len.to_le_bytes());
         record.extend_from_slice(op_data);
 
-        self.writer.write_all(&record).map_err(|io_err| WalError::WriteWalEntryDataIO {
-            op_version,
-            segment_id: self.segment_id,
-            source: io_err,
-        })?;
+        if self.poisoned {
+            return Err(WalError::Io {
+                operation: WalIoOperation::FlushWriter,
+                path: None,
+                source: std::io::Error::other("WAL segment tail is unknown after a failed append"),
+            });
+        }
 
-        self.writer.flush().map_err(|e| WalError::Io {
-            operation: WalIoOperation::FlushWriter,
-            path: None,
-            source: e,
-        })?;
-        self.writer.get_ref().sync_data().map_err(|e| WalError::Io {
-            operation: WalIoOperation::SyncData,
-            path: None,
-            source: e,
-        })?;
+        if let Err(e) = self.append_record(op_version, &record) {
+            // The caller reports the operation as failed and does not apply it. Nothing of its
+            // record may stay behind (buffered or on disk): it would be flushed by a later
+            // append and replayed on the next open, resurrecting an operation that never
+            // happened - possibly pointing at a blob that was unlinked in the meantime.
+            if let Err(rollback_err) = self.writer.get_ref().set_len(self.len) {
+                tracing::error!(
+                    "Failed to roll back WAL segment {}: {rollback_err}",
+                    self.segment_id
+                );
+                self.poisoned = true;
+            }
+            return Err(e);
+        }
+        self.len += record.len() as u64;
 
         tracing::trace!(
             version = op_version,
@@ -69,6 +80,22 @@ impl SegmentWriter {
             "Written WAL entry"
         );
         Ok(())
+    }
+
+    // writes the record straight to the file (the buffer is empty between entries) and syncs it.
+    fn append_record(&mut self, op_version: NonZeroU64, record: &[u8]) -> Result<(), WalError> {
+        self.writer.get_mut().write_all(record).map_err(|io_err| {
+            WalError::WriteWalEntryDataIO {
+                op_version,
+                segment_id: self.segment_id,
+                source: io_err,
+            }
+        })?;
+        self.writer.get_ref().sync_data().map_err(|e| WalError::Io {
+            operation: WalIoOperation::SyncData,
+            path: None,
+            source: e,
+        })
     }
 
     // seals the segment by writing a sentinel and then closing.
@@ -246,8 +273,16 @@ impl SegmentStorage {
                 path: Some(path),
                 source: e,
             })?;
+        let len = file
+            .metadata()
+            .map_err(|e| WalError::Io {
+                operation: WalIoOperation::OpenSegmentWrite,
+                path: Some(self.paths.wal_path_for_segment(segment_id)),
+                source: e,
+            })?
+            .len();
         tracing::info!("Successfully opened writer for WAL segment {}.", segment_id);
-        Ok(SegmentWriter::new(segment_id, file))
+        Ok(SegmentWriter::new(segment_id, file, len))
     }
 
     pub(crate) fn open_reader(&self, segment_id: u64) -> Result<SegmentReader, WalError> {
